@@ -532,7 +532,7 @@ def property_values_check(prop):
         else:
             try:
                 dtypes.get(val, dtype)
-            except ValueError:
+            except (ValueError, OverflowError):
                 msg = "Property values not of consistent dtype!"
                 yield ValidationError(prop, msg, LABEL_WARNING, validation_id)
 
